@@ -38,6 +38,7 @@ impl Ctx {
                 Item::Str(s) => { blob(6, s.as_bytes(), &mut enc); dec_script.push(6); dec_out.push(s.len() as i128); dec_out.extend(s.bytes().map(|x| x as i128)); }
                 Item::Raw(b) | Item::Skip(b) => { blob(7, b, &mut enc); dec_script.extend([7, b.len() as i128]); dec_out.extend(b.iter().map(|&x| x as i128)); }
                 Item::RawStr(s) => { blob(7, s.as_bytes(), &mut enc); dec_script.extend([7, s.len() as i128]); dec_out.extend(s.bytes().map(|x| x as i128)); }
+                Item::Gen(..) => return,
             }
         }
         self.coq2(18, 0, &enc, &[], &Some(bytes.iter().map(|&b| b as i128).collect()), false);
